@@ -150,9 +150,6 @@ class C04(Check):
             "synced-to incl. stale-hash deletion, new scope, neuter, second create, reopen; 70% end with conversion + reopen + "
             "further operations). After EVERY committed transaction the whole bbolt file is scanned for every secret produced "
             "so far (several encodings), both passphrases and every sensitive item; every row's shape is compared with the model. "
-            "Not generated: NewAccount / NewAccountWatchingOnly inside a scope made by NewScopedKeyManager (the code gives the "
-            "new account number 0 there, overwrites the scope's default account and leaves a stale cached copy - memory/disk "
-            "divergence the disk-only model cannot follow; reported in DESIGN). "
             "non-trivial = at least one address issued or imported; distinct by input")
     ASSUMPTIONS = ["bbolt's atomic commit: the only images a crash can leave behind are commit boundaries (trusted, C11)",
                    "strength of the sealing (secretbox) and of scrypt/sha256 is C17's hypothesis: Enc/Hash/Kdf are symbolic",
